@@ -95,6 +95,7 @@ def run(chk: Check) -> None:
     run_replacement_names_are_imported(chk, ix)
     run_literal_strings_kept(chk, ix)
     run_typing_forms_by_resolved_name(chk, ix)
+    run_bytes_literals_not_reescaped(chk, ix)
 
 
 def run_pending_decorators_cleared(chk: Check, ix) -> None:
@@ -396,3 +397,29 @@ def run_typing_forms_by_resolved_name(chk: Check, ix) -> None:
                 r11.ok(f"stubgen.{f.name}: `{c.args[1].value}` is recognised through is_typing_name", f.loc(c))
     if uses < 2 and not r11.count(("VIOLATION",)):
         raise AnalysisError(f"stubgen: only {uses} is_typing_name(<name>, 'TypeAlias'|'Final') decisions found")
+
+
+def run_bytes_literals_not_reescaped(chk: Check, ix) -> None:
+    """R19.12: the stored text of a bytes literal is not escaped a second time."""
+    r12 = chk.rule("R19.12", "BytesExpr.value is the text between the quotes of repr(<the bytes>): escapes are already spelled out (`\\n`, `\\'`). stubgen writes a bytes literal by putting that text between quotes; it never applies repr() to it (which doubles every backslash and, with both quote characters present, leaves an unterminated literal even after un-doubling). Every expression in mypy/stubgen.py that renders a BytesExpr (a function taking `.value` of a node tested `isinstance(..., BytesExpr)`, or a visit_bytes_expr) is free of `repr(<...>.value)`", floor=2)
+    m = ix.module("mypy.stubgen")
+    n = 0
+    for f in list(m.functions.values()) + [mm for c in m.classes.values() for mm in c.methods.values()]:
+        sites = []
+        if f.name == "visit_bytes_expr":
+            sites = [f.node]
+        else:
+            for i in ast.walk(f.node):
+                if isinstance(i, ast.If) and "BytesExpr" in norm(i.test) and "isinstance" in norm(i.test):
+                    rets = [st for st in i.body if isinstance(st, ast.Return) and st.value is not None and ".value" in norm(st.value)]
+                    sites += rets
+        for site in sites:
+            n += 1
+            key = f"stubgen.{f.name}: a bytes literal is written from its stored text"
+            calls = [c for c in ast.walk(site) if isinstance(c, ast.Call) and ((isinstance(c.func, ast.Name) and c.func.id == "repr") or call_name(c) == "_visit_literal_node")]
+            if not calls:
+                r12.ok(key, f.loc(site) if site is not f.node else f.loc())
+            else:
+                r12.violation(key, f.loc(calls[0]), f"`{norm(calls[0])[:60]}` re-escapes text that is already escaped: `def q(a=b'\\'\"')` is written as `b'\\\\'\"'` (a syntax error in the stub), and a bytes value printed through the alias printer gets doubled backslashes")
+    if n < 2:
+        raise AnalysisError(f"stubgen: only {n} places that render a BytesExpr found")
